@@ -13,8 +13,8 @@ NoNest == [api |-> "none", n |-> 0, B |-> 0]
 Sc(api, type, n, B, nest, cost, prefill) ==
   [api |-> api, type |-> type, n |-> n, B |-> B, nest |-> nest, cost |-> cost, prefill |-> prefill, pre |-> "none"]
 
-SignedNs   == {-3, -1, 0, 1, 2, T - 1, T, T + 1, 2 * T + 1, 63, 64, 65, 255, 1000, 32767}
-UnsignedNs == {0, 1, 2, T, 2 * T + 1, 64, 1000}
+SignedNs   == {-3, -1, 0, 1, 2, T - 1, T, T + 1, 2 * T + 1, 63, 64, 65, 255, 256, 257, 1000, 32767, 65535, 65536, 65537}
+UnsignedNs == {0, 1, 2, T, 2 * T + 1, 64, 255, 256, 257, 1000, 65535, 65536, 65537}
 TypeNs ==
   [u8 |-> {0, 1, 2, 7, 255}, i16 |-> {-3, -1, 0, 1, 2, 17, 32767}, i32 |-> SignedNs, u32 |-> UnsignedNs,
    i64 |-> {-1, 0, 1, T + 1, 1000}, ll |-> {-1, 0, 3, 1000}, ull |-> {0, 3, 1000}, sz |-> {0, 1, T + 1, 1000, 32767}]
